@@ -128,6 +128,15 @@ def bring_scenarios(rng):
              "paths": ["a.txt", "b.txt"], "tmp_other": True}]
 
 
+def move_scenarios(rng):
+    """oracle only, both tiers: a move to a name with ANOTHER extension -- the cache address carries the extension, so the
+    command also has to put every recorded version at the new address; killed anywhere, the moved path must not
+    end up recorded without its object"""
+    a1, b1 = contents(rng, "a1"), contents(rng, "b1")
+    base = [("W", "a.txt", a1), ("W", "b.txt", b1), ("track", None, ["a.txt", "b.txt"]), ("W", "a.txt", contents(rng, "a2")), ("carry", ["a.txt"])]
+    return [{"name": "move-other-extension", "setup": base, "argv": ["file", "move", "a.txt", "a.dat"], "paths": ["a.txt", "b.txt", "a.dat"]}]
+
+
 # commands outside the model (oracle only; thorough tier): argv after the global options
 def extra_scenarios(rng):
     a1, b1, c1 = contents(rng, "a1"), contents(rng, "b1"), contents(rng, "c1")
@@ -963,7 +972,7 @@ def run(chk, replay=None):
             jobs.append((sc, [tuple(r["input"]["inject"])]))
         for sc in scenarios(rng, tier):
             jobs.append((sc, None))
-        for sc in bring_scenarios(rng):
+        for sc in bring_scenarios(rng) + move_scenarios(rng):
             jobs.append((sc, None))
         if tier == "thorough":
             for sc in extra_scenarios(rng):
